@@ -73,6 +73,13 @@ pub fn repeat_check() -> bool {
     REPEAT_CHECK.load(std::sync::atomic::Ordering::Relaxed)
 }
 
+/// Iterator contract: lower bound <= upper bound (a size_hint that panics is caught by the caller)
+pub fn check_hint(h: (usize, Option<usize>)) {
+    if let (lo, Some(hi)) = h {
+        assert!(lo <= hi, "size_hint lower bound {} above upper bound {}", lo, hi);
+    }
+}
+
 pub trait Flavour: 'static {
     const NAME: &'static str;
     const DIRECTED: bool;
@@ -100,6 +107,9 @@ pub trait Flavour: 'static {
     fn edges(n: &Self::Node, kind: IterKind) -> Vec<Self::Edge>;
     /// drive an edge iterator by hand; `f` returns false to stop
     fn iterate(n: &Self::Node, kind: IterKind, f: &mut dyn FnMut(&Self::Edge) -> bool);
+    /// the same loop written with std adapters: map + take_while + collect into a Vec and a HashSet-like
+    /// consumer (both ask the iterator for `size_hint` while the loop is live)
+    fn iterate_adapters(n: &Self::Node, kind: IterKind, f: &mut dyn FnMut(&Self::Edge) -> bool);
     fn out_degree(n: &Self::Node) -> usize; // undirected: degree()
     fn in_degree(n: &Self::Node) -> usize; // undirected: 0
     fn is_root(n: &Self::Node) -> bool; // undirected: unsupported (false)
@@ -533,9 +543,16 @@ macro_rules! directed_flavour {
             }
             fn iterate(n: &Self::Node, kind: IterKind, f: &mut dyn FnMut(&Self::Edge) -> bool) {
                 match kind {
-                    IterKind::Out => { let mut it = n.iter_out(); while let Some(e) = it.next() { if !f(&e) { break; } } }
-                    IterKind::In => { let mut it = n.iter_in(); while let Some(e) = it.next() { if !f(&e) { break; } } }
+                    IterKind::Out => { let mut it = n.iter_out(); check_hint(it.size_hint()); while let Some(e) = it.next() { if !f(&e) { break; } check_hint(it.size_hint()); } }
+                    IterKind::In => { let mut it = n.iter_in(); check_hint(it.size_hint()); while let Some(e) = it.next() { if !f(&e) { break; } check_hint(it.size_hint()); } }
                     IterKind::IntoIter => { for e in n { if !f(&e) { break; } } }
+                }
+            }
+            fn iterate_adapters(n: &Self::Node, kind: IterKind, f: &mut dyn FnMut(&Self::Edge) -> bool) {
+                match kind {
+                    IterKind::Out => { let v: Vec<bool> = n.iter_out().map(|e| f(&e)).take_while(|go| *go).collect(); std::hint::black_box(v); }
+                    IterKind::In => { let v: Vec<bool> = n.iter_in().map(|e| f(&e)).collect(); std::hint::black_box(v); }
+                    IterKind::IntoIter => { let mut it = n.into_iter(); if let Some(e) = it.next() { if f(&e) { let (a, b): (Vec<bool>, Vec<u8>) = it.map(|e| (f(&e), 0u8)).unzip(); std::hint::black_box((a, b)); } } }
                 }
             }
             fn out_degree(n: &Self::Node) -> usize { n.out_degree() }
@@ -600,9 +617,16 @@ macro_rules! undirected_flavour {
             }
             fn iterate(n: &Self::Node, kind: IterKind, f: &mut dyn FnMut(&Self::Edge) -> bool) {
                 match kind {
-                    IterKind::Out => { let mut it = n.iter(); while let Some(e) = it.next() { if !f(&e) { break; } } }
+                    IterKind::Out => { let mut it = n.iter(); check_hint(it.size_hint()); while let Some(e) = it.next() { if !f(&e) { break; } check_hint(it.size_hint()); } }
                     IterKind::In => {}
                     IterKind::IntoIter => { for e in n { if !f(&e) { break; } } }
+                }
+            }
+            fn iterate_adapters(n: &Self::Node, kind: IterKind, f: &mut dyn FnMut(&Self::Edge) -> bool) {
+                match kind {
+                    IterKind::Out => { let v: Vec<bool> = n.iter().map(|e| f(&e)).take_while(|go| *go).collect(); std::hint::black_box(v); }
+                    IterKind::In => {}
+                    IterKind::IntoIter => { let mut it = n.into_iter(); if let Some(e) = it.next() { if f(&e) { let (a, b): (Vec<bool>, Vec<u8>) = it.map(|e| (f(&e), 0u8)).unzip(); std::hint::black_box((a, b)); } } }
                 }
             }
             fn out_degree(n: &Self::Node) -> usize { n.degree() }
